@@ -62,6 +62,7 @@ BOUNDS = {
             ("por", 3, [("full3", 5)], [None, "EOL"], MUTS_Q, "interleave"),  # observers after every operation
         ],
         "split_max": 3,
+        "tracker": [(4, {"mov": False, "sync": True})],  # Part H: (depth, options)
         # Part B: (nCycles, burnSteps) shapes of the fault-free family / of the base fault enumeration /
         # the shape on which every write-path deviation also gets its fault enumeration
         "iter_modes": [(None, False), (0, False), (2, True)],  # cap 1 runs the same schedule as the default cap
@@ -78,6 +79,7 @@ BOUNDS = {
             ("por", 4, [("full3", 3)], [None, "-special", "x"], PRIMS, "interleave"),
         ],
         "split_max": 4,
+        "tracker": [(5, {"mov": True, "sync": True}), (4, {"mov": False, "sync": False})],
         "iter_modes": [(None, False), (0, False), (1, False), (2, True)],
         "shapes_free": [(1, 0), (1, 1), (1, 2), (1, 3), (2, 1), (2, 2), (2, 3), (3, 1), (3, 2), (3, 3)],
         "shapes_free_base": [],
@@ -839,6 +841,171 @@ def split_items(ctx, nmax):
 
 
 # =============================================================================================
+# Part H - HistoryTrackerInterface: pre-loaded block histories against the database and the live state
+# =============================================================================================
+
+H_TIMES = [(0, 0), (0, 1), (0, 2), (1, 0)]
+
+
+class HSt:
+    """Bare operator with a real HistoryTrackerInterface and a real DatabaseInterface (opened the
+    way the main interface opens it), plus the model: value of the tracked parameter per written
+    step and block."""
+
+    def __init__(self, init):
+        from armi import context
+        from armi.bookkeeping.db.databaseInterface import DatabaseInterface
+        from armi.bookkeeping.historyTracker import HistoryTrackerInterface
+
+        _reset_masks()
+        self.init = init
+        self.seed = int(init.get("seed", 0))
+        self.dir = env.fresh_dir("c06h")
+        os.chdir(self.dir)
+        fastroot = os.path.join(self.dir, "fast")
+        os.makedirs(fastroot)
+        self.old_app = context.APP_DATA
+        context.APP_DATA = fastroot
+        self.dbi = None
+        o, r, cs = _mk_operator(2, 2, False, self.seed, syncDbAfterWrite=bool(init.get("sync", True)))
+        self.o, self.r = o, r
+        self.ht = HistoryTrackerInterface(r, cs)
+        o.addInterface(self.ht)
+        self.dbi = DatabaseInterface(r, cs)
+        o.addInterface(self.dbi)
+        self.dbi.initDB()
+        t = _Trace
+        self.A0, self.A1 = t.A0, t.A1
+        self.blocks = {"b0": t.A0[0], "b1": t.A1[0]}
+        self.names = {k: b.getName() for k, b in self.blocks.items()}
+        self.ti = 0
+        r.p.cycle, r.p.timeNode = H_TIMES[0]
+        self.written = {}  # (c, n) -> {"b0": value, "b1": value}
+        self.pre = None  # what a pre-load covered: {"steps": [...], "at": (c, n)}
+        self.nev = 0
+
+    @property
+    def now(self):
+        return (int(self.r.p.cycle), int(self.r.p.timeNode))
+
+    def live(self):
+        return {k: cv(b.p.power) for k, b in self.blocks.items()}
+
+    def close(self):
+        from armi import context
+
+        context.APP_DATA = self.old_app
+        try:
+            if self.dbi is not None and self.dbi._db is not None and self.dbi._db.isOpen():
+                self.dbi._db.h5db.close()
+                self.dbi._db.h5db = None
+        except Exception:
+            pass
+        env.enter_scratch()
+        shutil.rmtree(self.dir, ignore_errors=True)
+
+
+def h_apply(st, op):
+    k = op[0]
+    if k == "node":
+        st.ti += 1
+        st.r.p.cycle, st.r.p.timeNode = H_TIMES[st.ti]
+    elif k == "mut":
+        # value depends on what has been fixed so far: idempotent until the next write / pre-load
+        st.blocks["b0"].p.power = 2000.0 + 16.0 * st.nev + (st.seed % 7)
+        st.blocks["b1"].p.power = 3000.0 + 16.0 * st.nev + (st.seed % 7)
+    elif k == "mov":
+        l0, l1 = st.A0.spatialLocator, st.A1.spatialLocator
+        st.A0.moveTo(l1)
+        st.A1.moveTo(l0)
+        st.r.core.sort()
+    elif k == "write":
+        st.dbi.writeDBEveryNode()  # the database interface's own write path (incl. syncDbAfterWrite)
+        st.written[st.now] = st.live()
+        st.nev += 1
+    elif k == "preload":
+        steps = sorted(st.written) + ([st.now] if st.now not in st.written else [])
+        st.ht.preloadBlockHistoryVals([st.names["b0"], st.names["b1"]], ["power"], steps)
+        st.pre = {"steps": [list(x) for x in steps], "at": list(st.now), "live": st.live()}
+        st.nev += 1
+    elif k == "unload":
+        st.ht.unloadBlockHistoryVals()
+        st.pre = None
+    else:
+        raise ValueError(op)
+    return "ok"
+
+
+def h_enabled(init, st):
+    ops = []
+    if st.now not in st.written:
+        ops.append(["write"])
+    ops.append(["mut"])
+    if st.ti < len(H_TIMES) - 1:
+        ops.append(["node"])
+    ops.append(["preload"])
+    if st.pre is not None:
+        ops.append(["unload"])
+    if init.get("mov"):
+        ops.append(["mov"])
+    return ops
+
+
+def h_queries(st, tag):
+    """getBlockHistoryVal for every written step and the current one: the value the block had when
+    that step was written; for the current step, while the database has not written it, the live
+    value (documented rule) - whether or not values were pre-loaded ("the same results should be
+    given if this method is not called")."""
+    out = []
+    for ts in sorted(set(st.written) | {st.now}):
+        for k in ("b0", "b1"):
+            exp = st.written[ts][k] if ts in st.written else st.live()[k]
+            try:
+                got = cv(st.ht.getBlockHistoryVal(st.names[k], "power", ts))
+            except Exception as e:
+                out.append(("tracker-raises:" + type(e).__name__, "%sgetBlockHistoryVal(%s, 'power', %s) raised %r" % (tag, k, ts, e)))
+                return out
+            if got != exp:
+                kind = "current-unwritten-step" if ts not in st.written else ("current-step" if ts == st.now else "past-step")
+                how = "no pre-load" if st.pre is None else "pre-loaded at %s for steps %s" % (tuple(st.pre["at"]), [tuple(x) for x in st.pre["steps"]])
+                if not any(o[0] == "tracker-value:" + kind for o in out):
+                    out.append(("tracker-value:" + kind, "%sgetBlockHistoryVal(%s, 'power', %s) = %r, expected %r (%s; %s)" % (tag, k, ts, got, exp, "written value" if ts in st.written else "live value, step not written yet", how)))
+    # a step that is neither written nor current has no value: KeyError is the documented answer
+    absent = [t for t in H_TIMES if t not in st.written and t != st.now]
+    if absent:
+        try:
+            got = st.ht.getBlockHistoryVal(st.names["b0"], "power", absent[0])
+            out.append(("tracker-absent-step", "%sgetBlockHistoryVal(b0, 'power', %s) returned %r for a step that was never written" % (tag, absent[0], got)))
+        except KeyError:
+            pass
+        except Exception as e:
+            out.append(("tracker-raises:" + type(e).__name__, "%sgetBlockHistoryVal for the unwritten step %s raised %r" % (tag, absent[0], e)))
+    return out
+
+
+def expand_h(item):
+    """Worker entry for the Part H search (queries after EVERY operation)."""
+    init, hist, outs = item["init"], [list(o) for o in item["hist"]], item.get("outs", [])
+    st = HSt(init)
+    try:
+        vl = h_queries(st, "initially: ") if not hist else []
+        for k, op in enumerate(hist):
+            h_apply(st, op)
+            vl += h_queries(st, "after operation %d: " % (k + 1))  # first occurrence of each class is kept below
+        case = {"part": "H", "init": init, "hist": hist, "outs": ["ok"] * len(hist)}
+        seen, viols = set(), []
+        for key, msg in vl:
+            if key not in seen:
+                seen.add(key)
+                viols.append(core.viol("c06/" + key, "history %s: %s" % (json.dumps(hist), msg), case))
+        pre = None if st.pre is None else [st.pre["steps"], st.pre["at"], st.pre["live"]]
+        canon = json.dumps([st.ti, sorted((list(t), v) for t, v in st.written.items()), st.live(), pre, _ints(st.A0.spatialLocator.getCompleteIndices())], sort_keys=True)
+        return {"canon": hashlib.sha1(canon.encode()).hexdigest(), "full": None, "viols": viols, "ops": h_enabled(init, st), "out": "ok"}
+    finally:
+        st.close()
+
+
+# =============================================================================================
 # Part L - labels with unusual but legal characters
 # =============================================================================================
 
@@ -1238,7 +1405,7 @@ def run_fault(case):
                                 dd = observe.diff(t.projs[arm], final)
                                 if dd:
                                     vl.append(("state-changed-by-error-handling", "%s: the reactor after the aborted run differs from its state at the fault: %s" % (what, dd[:4])))
-                except (OSError, KeyError) as e:
+                except Exception as e:
                     vl.append(("file-unreadable:" + type(e).__name__, "%s: the file left behind cannot be read: %r" % (what, e)))
         seen = set()
         for key, msg in vl:
@@ -1497,6 +1664,13 @@ def run(ctx):
             ctx.count("op/" + k, v)
         for k, v in s["outcomes"].items():
             ctx.count("outcome/" + k, v)
+    # ---- Part H: history tracker search (same BFS machinery)
+    for depth, opts in (b["tracker"] if "A" in parts else []):
+        hs = explore.bfs(ctx, MOD, [dict(opts, seed=ctx.seed)], depth, fname="expand_h", differential=False)
+        explore.merge_stats(total, hs)
+        total["searches"][-1].update(alphabet="history tracker: node|mut|write|preload|unload" + ("|mov" if opts.get("mov") else ""), depth=depth, options=opts)
+        for k, v in hs["ops"].items():
+            ctx.count("tracker-op/" + k, v)
     explore.finish(
         ctx,
         total,
@@ -1527,6 +1701,7 @@ def run(ctx):
         "when a labelled and an unlabelled snapshot share (cycle,node), a history without explicit steps may return either value for that step",
         "splitDatabase renumbers cycles (documented in code): 'unchanged' is checked modulo a shift applied consistently to group name, Reactor/cycle and the group's cycle attribute; labelled snapshots cannot be requested and are not kept",
         "Part B: bare Operator, stack [recorder, DatabaseInterface, recorder]. Fault-free family: every (nCycles, burnSteps) shape listed in coverage x {no tight coupling, tight coupling x cyclesSkipTightCouplingInteraction in {[], [0], [1], all} x coupled iterations in {default cap, cap 0, cap 1, cap 2 reached with a never-converging real TightCoupler}} x syncDbAfterWrite on the two base members - i.e. every settings dimension found to change which code path writes a node or finalises the file. Fault enumeration (one RuntimeError per run, raised inside a recorder hook at every interaction point): the base members of the smaller shapes plus one member per deviation (quick) / every member of the family on the smaller shapes (thorough). Faults before the database is opened (first recorder at BOL) and after it is finalised (last recorder at EOL) are outside the property's window and only counted",
+        "Part H: tracked parameter `power` of two blocks, steps (0,0),(0,1),(0,2),(1,0), depth as reported; the pre-load always asks for the written steps plus the current one (asking for a step the database does not hold makes the pre-load fail as a whole, which the code documents); oracle: the database's record for a written step, the live value for the current unwritten step, KeyError otherwise - with or without a pre-load ('the same results should be given if this method is not called')",
         "not covered: debugDB (a bare operator aborts at the first BOL debug write, before the database exists), forceDbParams (changes which columns are stored, not the write path), deferred interfaces and the db switch (they decide whether the database interface takes part at all), snapshot/restart operators other than prepRestartRun",
         "fast path redirected below the per-run scratch directory (context.APP_DATA / context._FAST_PATH), distinct from the working directory, so the move on close is exercised",
     ]
@@ -1542,4 +1717,6 @@ def evaluate(case):
         return run_restart(case)["viols"]
     if part == "C":
         return ctxmgr_item(case)["viols"]
+    if part == "H":
+        return expand_h(case)["viols"]
     return _eval_A(case)
